@@ -87,9 +87,13 @@ Fixpoint notsent_suffix (l : list fseg) (seen_unsent : bool) : bool :=
               else negb seen_unsent && notsent_suffix r false
   end.
 
+(* after the PEER's FIN was taken in Established (LastAck{our_fin = seq_nr}) the endpoint's own FIN takes
+   the number of the first never-sent segment and later segments may still go out: the never-sent
+   segments are then no longer a suffix.  The suffix shape is a hypothesis of the true-flight form of the
+   window theorem only, and is monitored while the peer has not closed. *)
 Definition c05_fp_ok (f : vfp) : bool :=
   forallb (fun g => 1 <=? fg_size g) (f_segs f) && (0 <=? f_rto_retx f) &&
-  notsent_suffix (f_segs f) false && (1 <=? f_mss f).
+  (is_remote_fin_or_later (f_state f) || notsent_suffix (f_segs f) false) && (1 <=? f_mss f).
 
 (* the fingerprint a poll leaves when it ends the connection is not monitored (finding T1) *)
 Definition c05_monitor_ok (cfg : vconfig) (st : fstep) : bool :=
